@@ -1,9 +1,10 @@
 package props
 
 import (
-	"errors"
 	"bufio"
+	"errors"
 	"fmt"
+	"io"
 	"os"
 	"os/exec"
 	"path/filepath"
@@ -160,6 +161,9 @@ func c09cases() []c09case {
 	for ci := range c09convs {
 		for ri := range c09chains {
 			cs = append(cs, c09case{ci, ri, "names"}, c09case{ci, ri, "ospaths"})
+			if c09convs[ci].GOOS == "linux" {
+				cs = append(cs, c09case{ci, ri, "subvolume"})
+			}
 		}
 	}
 	return cs
@@ -239,6 +243,59 @@ func c09run(env *core.Env, idx int) core.CaseResult {
 		return fsys.VerifFromOSPath(conv.GOOS, conv.Sep, func(s string) string { return modelVolume(conv.GOOS, s) }, "ospath", p)
 	}
 	names := c09names()
+	if cs.Part == "subvolume" {
+		// the public SubVolume on its own OS: every candidate is either refused, or the file system it returns (and
+		// the Sub roots below it) still maps root+name and back
+		for _, vol := range []string{"", "/", "//", "C:", `C:\`, "tmp", "/tmp", ".", `\`, " ", "/.", `\\host\share`} {
+			var top hackpadfs.FS
+			var verr error
+			if p := core.Recover(func() { top, verr = hpos.NewFS().SubVolume(vol) }); p != "" {
+				res.Violate("C09|linux|SubVolume|panic", fmt.Sprintf("SubVolume(%q) panicked: %s", vol, p), wit(vol))
+				continue
+			}
+			res.Count("subvolume_candidates", 1)
+			if verr != nil {
+				continue
+			}
+			res.Count("subvolume_accepted", 1)
+			cur := top
+			ok := true
+			for _, d := range chain {
+				n, err := cur.(*hpos.FS).Sub(d)
+				if err != nil {
+					res.Violate("C09|linux|SubVolume|Sub", fmt.Sprintf("after SubVolume(%q), Sub chain %v failed: %v", vol, chain, err), wit(vol))
+					ok = false
+					break
+				}
+				cur = n
+			}
+			if !ok {
+				continue
+			}
+			vfs := cur.(*hpos.FS)
+			for _, n := range names {
+				res.Evals++
+				want, valid := modelToOS(conv, chain, n)
+				got, gerr := vfs.ToOSPath(n)
+				if !valid {
+					if gerr == nil {
+						res.Violate("C09|linux|SubVolume|ToOSPath|invalid-accepted", fmt.Sprintf("after SubVolume(%q): ToOSPath(%q) returned %q for an invalid name", vol, n, got), wit(n))
+					}
+					continue
+				}
+				res.NTKeys = append(res.NTKeys, core.Hash([]any{cs.Conv, cs.Chain, "vol", vol, n}))
+				if gerr != nil || got != want {
+					res.Violate("C09|linux|SubVolume|ToOSPath|not-root-joined-name", fmt.Sprintf("after SubVolume(%q) and Sub chain %v: ToOSPath(%q) = %q, %v; want %q (the only volume on this OS is the empty one)", vol, chain, n, got, gerr, want), wit(n))
+					continue
+				}
+				if back, berr := vfs.FromOSPath(got); berr != nil || back != n {
+					res.Violate("C09|linux|SubVolume|roundtrip", fmt.Sprintf("after SubVolume(%q) and Sub chain %v: FromOSPath(ToOSPath(%q)=%q) = %q, %v", vol, chain, n, got, back, berr), wit(n))
+				}
+			}
+		}
+		res.Sample = map[string]any{"convention": conv.GOOS, "chain": chain, "part": "SubVolume candidates"}
+		return res
+	}
 	if cs.Part == "names" {
 		for _, n := range names {
 			res.Count("to_os_evaluations", 1)
@@ -529,6 +586,78 @@ func c09straceChild(args []string) int {
 				fmt.Println("BADERR " + bad)
 			}
 		}
+	}
+	// errors coming back from the OS through an open HANDLE name the FS-relative path the handle was opened with as well
+	_ = hackpadfs.WriteFullFile(cur, "hf", []byte("0123456789"), 0o644)
+	_ = hackpadfs.Mkdir(cur, "hd", 0o755)
+	for _, hc := range []struct {
+		name string
+		flag int
+	}{{"hf", os.O_RDONLY}, {"hf", os.O_WRONLY}, {"hd", os.O_RDONLY}, {"hf", -1}} {
+		flag := hc.flag
+		if flag < 0 {
+			flag = os.O_RDWR
+		}
+		mark("b")
+		h, oerr := hackpadfs.OpenFile(cur, hc.name, flag, 0)
+		if oerr != nil {
+			mark("e")
+			fmt.Printf("BADERR OpenFile(%q, %d) -> %v\n", hc.name, flag, oerr)
+			continue
+		}
+		if hc.flag < 0 {
+			_ = h.Close() // every call below fails on a closed handle
+		}
+		buf := make([]byte, 4)
+		calls := []struct {
+			op string
+			f  func() error
+		}{
+			{"Read", func() error { _, err := h.Read(buf); return err }},
+			{"ReadAt", func() error { _, err := hackpadfs.ReadAtFile(h, buf, 1); return err }},
+			{"ReadAt(-1)", func() error { _, err := hackpadfs.ReadAtFile(h, buf, -1); return err }},
+			{"Write", func() error { _, err := hackpadfs.WriteFile(h, []byte("w")); return err }},
+			{"WriteAt", func() error { _, err := hackpadfs.WriteAtFile(h, []byte("w"), 2); return err }},
+			{"WriteAt(-1)", func() error { _, err := hackpadfs.WriteAtFile(h, []byte("w"), -1); return err }},
+			{"ReadFrom", func() error {
+				rf, ok := h.(io.ReaderFrom)
+				if !ok {
+					return nil
+				}
+				_, err := rf.ReadFrom(strings.NewReader("from"))
+				return err
+			}},
+			{"Seek(-1)", func() error { _, err := hackpadfs.SeekFile(h, -1, io.SeekStart); return err }},
+			{"Seek(whence 9)", func() error { _, err := hackpadfs.SeekFile(h, 0, 9); return err }},
+			{"Truncate", func() error { return hackpadfs.TruncateFile(h, 3) }},
+			{"Truncate(-1)", func() error { return hackpadfs.TruncateFile(h, -1) }},
+			{"ReadDir", func() error { _, err := hackpadfs.ReadDirFile(h, -1); return err }},
+			{"Sync", func() error { return hackpadfs.SyncFile(h) }},
+			{"Chmod", func() error { return hackpadfs.ChmodFile(h, 0o644) }},
+			{"Stat", func() error { _, err := h.Stat(); return err }},
+			{"Close", func() error { return h.Close() }},
+			{"Close again", func() error { return h.Close() }},
+		}
+		for _, c := range calls {
+			var err error
+			if p := core.Recover(func() { err = c.f() }); p != "" {
+				fmt.Printf("BADERR %s on the handle of %q (flag %d) panicked: %s\n", c.op, hc.name, hc.flag, p)
+				continue
+			}
+			n++
+			if err == nil || err == io.EOF {
+				continue
+			}
+			var pe *hackpadfs.PathError
+			if errors.As(err, &pe) {
+				if pe.Path != hc.name {
+					fmt.Printf("BADERR %s on the handle opened as %q (flag %d) -> Path=%q [%v]\n", c.op, hc.name, hc.flag, pe.Path, err)
+				}
+			} else if strings.Contains(err.Error(), "jail") {
+				fmt.Printf("BADERR %s on the handle opened as %q (flag %d) -> %v (an OS path in an untyped error)\n", c.op, hc.name, hc.flag, err)
+			}
+		}
+		mark("e")
 	}
 	// invalid names, alone and as either name of a two-name operation: refused as ErrInvalid, naming the arguments, before any OS call
 	for _, bad := range []string{"", "../b", "b/", "/b", "x/../b", "./b", "d//f", "..", "d/.."} {
